@@ -537,8 +537,34 @@ def make_model(ms):
     m, n = ms["m"], ms["n"]
     dom = make_geometry(ms["dom"], n)
     ran = make_geometry(ms["ran"], m)
-    fwd = lambda x: A @ (x * x) + B @ x
-    jac = lambda x: 2 * A * np.asarray(x)[None, :] + B
+    fwd0 = lambda x: A @ (x * x) + B @ x
+    jac0 = lambda x: 2 * A * np.asarray(x)[None, :] + B
+    ret = ms.get("ret", "fresh")
+    if ret == "buffer":
+        # the user's callables fill and hand out THE SAME work arrays on every call
+        fbuf, jbuf, gbuf, abuf = np.zeros(m), np.zeros((m, n)), np.zeros(n), np.zeros(n)
+
+        def fwd(x):
+            fbuf[:] = fwd0(np.asarray(x, dtype=float))
+            return fbuf
+
+        def jac(x):
+            jbuf[:] = jac0(np.asarray(x, dtype=float))
+            return jbuf
+        wrapg = lambda v: (gbuf.__setitem__(slice(None), v), gbuf)[1]
+        wrapa = lambda v: (abuf.__setitem__(slice(None), v), abuf)[1]
+    elif ret == "fortran":
+        # results that are not C-contiguous: a Fortran-ordered Jacobian, vectors that are strided views of larger arrays
+        def strided(v):
+            big = np.zeros(2 * len(v))
+            big[::2] = v
+            return big[::2]
+        fwd = lambda x: strided(fwd0(np.asarray(x, dtype=float)))
+        jac = lambda x: np.asfortranarray(jac0(np.asarray(x, dtype=float)))
+        wrapg = wrapa = strided
+    else:
+        fwd, jac = fwd0, jac0
+        wrapg = wrapa = lambda v: v
     k = ms["kind"]
     if k == "matrix":
         kw = {}
@@ -546,13 +572,14 @@ def make_model(ms):
             kw["domain_geometry"] = dom
         if ms["ran"][0] != "default":
             kw["range_geometry"] = ran
-        return LinearModel(B.copy(), **kw)
+        Bm = np.asfortranarray(B) if ret == "fortran" else (B.astype(int) if ms.get("intmatrix") else B.copy())
+        return LinearModel(Bm, **kw)
     if k == "funadj":
-        return LinearModel(lambda x: B @ x, lambda y: B.T @ y, range_geometry=ran, domain_geometry=dom)
+        return LinearModel(lambda x: fwd(x) if not np.any(A) else B @ x, lambda y: wrapa(B.T @ y), range_geometry=ran, domain_geometry=dom)
     if k == "jac":
         return Model(fwd, ran, dom, jacobian=jac)
     if k == "grad":
-        return Model(fwd, ran, dom, gradient=lambda direction, wrt: jac(wrt).T @ direction)
+        return Model(fwd, ran, dom, gradient=lambda direction, wrt: wrapg(jac0(np.asarray(wrt, dtype=float)).T @ direction))
     if k == "nograd":
         return Model(fwd, ran, dom)
     if k in ("pde-grad", "pde-jac"):
@@ -569,7 +596,7 @@ def make_model(ms):
             def observe(self, solution):
                 return solution
         if k == "pde-grad":
-            _PDE.gradient_wrt_parameter = lambda self, direction, wrt: jac(wrt).T @ direction
+            _PDE.gradient_wrt_parameter = lambda self, direction, wrt: wrapg(jac0(np.asarray(wrt, dtype=float)).T @ direction)
         else:
             _PDE.jacobian_wrt_parameter = lambda self, wrt: jac(wrt)
         return PDEModel(_PDE(), ran, dom)
@@ -671,7 +698,33 @@ def build(meta):
     return obj, dim
 
 
+def _decl(meta, v):
+    """declaration style of a stored parameter: integer-valued numbers as int64 arrays / Python ints / lists of ints"""
+    style = meta.get("intdecl")
+    if not style or hasattr(v, "toarray"):
+        return v
+    a = np.asarray(v, dtype=float)
+    if not np.all(a == np.round(a)):
+        return v
+    if a.ndim == 0:
+        return int(a)
+    return a.astype(np.int64) if style == "int64" else a.astype(int).tolist()
+
+
 def _build0(meta):
+    o, dim = _build1(meta)
+    return o, dim
+
+
+def _touch(obj, x0):
+    observe(lambda: obj.gradient(x0))
+    try:
+        logd_of(obj)(x0)
+    except Exception:
+        pass
+
+
+def _build1(meta):
     """returns (object whose gradient/logd are observed, dim of the evaluated variable)"""
     import cuqi
     from cuqi.distribution import (Gaussian, GMRF, CMRF, Cauchy, Beta, InverseGamma, Lognormal, SmoothedLaplace,
@@ -680,25 +733,42 @@ def _build0(meta):
     with warnings.catch_warnings():
         warnings.simplefilter("ignore")
         if fam == "gauss":
-            val = gauss_value(meta)
+            val = _decl(meta, gauss_value(meta))
             kw = {"geometry": meta["n"]} if (meta["mean"][0] == "s" and meta["ptype"] == "scalar") else {}
-            return Gaussian(mean_value(meta["mean"]), **{meta["form"]: val}, **kw), meta["n"]
+            if meta.get("shallow"):
+                parent = Gaussian(mean=lambda z_: z_, geometry=meta["n"], **{meta["form"]: val})
+                this = parent(z_=mean_value(meta["mean"]))
+                _touch(this, fa(meta["shallow"]["x0"]))
+                sibling = parent(z_=fa(meta["shallow"]["sibling_mean"]))
+                _touch(sibling, fa(meta["shallow"]["x0"]))
+                return this, meta["n"]
+            return Gaussian(_decl(meta, mean_value(meta["mean"])), **{meta["form"]: val}, **kw), meta["n"]
         if fam == "gmrf":
             geom = (meta["n"] if meta.get("geo1", "default") == "default" else make_geometry([meta["geo1"]], meta["n"])) if meta["pd"] == 1 \
                 else make_geometry([meta["geo2"], meta["N"]], meta["n"])
             import io, contextlib
             with contextlib.redirect_stdout(io.StringIO()):
-                return GMRF(mean_value(meta["mean"]), float(F(meta["prec"])), bc_type=meta["bc"], order=meta["order"], geometry=geom), meta["n"]
+                if meta.get("defaults"):
+                    return GMRF(mean_value(meta["mean"]), float(F(meta["prec"])), geometry=geom), meta["n"]
+                return GMRF(_decl(meta, mean_value(meta["mean"])), _decl(meta, float(F(meta["prec"]))), bc_type=meta["bc"], order=meta["order"], geometry=geom), meta["n"]
         if fam == "cmrf":
             geom = meta["n"] if meta["pd"] == 1 else make_geometry([meta["geo2"], meta["N"]], meta["n"])
-            return CMRF(mean_value(meta["loc"]), float(F(meta["scale"])), bc_type=meta["bc"], geometry=geom), meta["n"]
+            if meta.get("defaults"):
+                return CMRF(mean_value(meta["loc"]), float(F(meta["scale"])), geometry=geom), meta["n"]
+            return CMRF(_decl(meta, mean_value(meta["loc"])), _decl(meta, float(F(meta["scale"]))), bc_type=meta["bc"], geometry=geom), meta["n"]
         if fam == "lik":
             model = make_model(meta["model"])
-            val = gauss_value(meta)
+            val = _decl(meta, gauss_value(meta))
             nm = meta.get("name", "y")
             style = meta.get("lstyle", "to_likelihood")
             if meta.get("lognormal"):
                 D = Lognormal(model, val, name=nm)
+            elif style == "cond-param-samename":
+                # `cov=lambda cov: 2*cov0 ... `: the conditioning variable carries the attribute's own name and enters through a
+                # NON-identity callable (value handed in: 2; the parameter in force: 2 * (val / 2) = val)
+                half_val = val * 0.5
+                fn = eval("lambda %s, v=half_val: %s * v" % (meta["form"], meta["form"]), {"half_val": half_val})
+                D = Gaussian(mean=model, name=nm, **{meta["form"]: fn})(**{meta["form"]: 2.0})
             elif style == "cond-param":
                 # the covariance-type parameter declared through a callable of a hyper-parameter, fixed by conditioning
                 D = Gaussian(mean=model, name=nm, **{meta["form"]: (lambda s_, v=val: s_ * v)})(s_=1.0)
@@ -706,7 +776,13 @@ def _build0(meta):
                 D = Gaussian(mean=model, name=nm, **{meta["form"]: val})
             if style == "call-name" and not meta.get("lognormal"):
                 return D(**{nm: fa(meta["data"])}), meta["model"]["n"]
-            return D.to_likelihood(fa(meta["data"])), meta["model"]["n"]
+            if meta.get("shallow"):
+                this = D.to_likelihood(fa(meta["data"]))
+                _touch(this, fa(meta["shallow"]["x0"]))
+                sibling = D.to_likelihood(fa(meta["shallow"]["sibling_data"]))
+                _touch(sibling, fa(meta["shallow"]["x0"]))
+                return this, meta["model"]["n"]
+            return D.to_likelihood(_decl(meta, fa(meta["data"]))), meta["model"]["n"]
         if fam in ("post", "mlp"):
             return build_sum(meta)[0], meta["n"]
         if fam in ("ulik", "udist", "eval"):
@@ -714,6 +790,13 @@ def _build0(meta):
         if fam == "sep":
             return build_sep(meta), meta["n"]
         if fam == "lognormal-full":
+            if meta.get("shallow"):
+                parent = Lognormal(lambda z_: z_, um(meta["cov"]))
+                this = parent(z_=fa(meta["mean"]))
+                _touch(this, fa(meta["shallow"]["x0"]))             # the first copy is used, then a sibling is made and used, then the first again
+                sibling = parent(z_=fa(meta["shallow"]["sibling_mean"]))
+                _touch(sibling, fa(meta["shallow"]["x0"]))
+                return this, meta["n"]
             return Lognormal(fa(meta["mean"]), um(meta["cov"])), meta["n"]
     raise ValueError(fam)
 
@@ -728,7 +811,15 @@ def user_funcs(meta):
         # an implementation that accumulates in place into what a factor returned corrupts it (aliasing)
         g0 = -w * c
         return (lambda x: float(np.dot(g0, np.asarray(x, dtype=float)))), ((lambda x: g0) if meta.get("grad", True) else None)
-    logd = lambda x: -(w / deg) * float(np.sum((np.asarray(x, dtype=float) - c) ** deg))
+    off = float(F(meta["offset"])) if meta.get("offset") else 0.0          # additive constant of the user's log-density
+    logd = lambda x: off - (w / deg) * float(np.sum((np.asarray(x, dtype=float) - c) ** deg))
+    if meta.get("ret") == "buffer":
+        buf = np.zeros(len(c))
+
+        def gbuf(x):
+            buf[:] = -w * (np.asarray(x, dtype=float) - c) ** (deg - 1)
+            return buf
+        return logd, (gbuf if meta.get("grad", True) else None)
     grad = (lambda x: -w * (np.asarray(x, dtype=float) - c) ** (deg - 1)) if meta.get("grad", True) else None
     return logd, grad
 
@@ -835,7 +926,7 @@ def build_sep(meta):
 
     def par(spec):
         return float(F(spec[1])) if spec[0] == "s" else fa(spec[1])
-    a, b, c = [par(s) for s in meta["pars"]]
+    a, b, c = [_decl(meta, par(s)) for s in meta["pars"]]
     geom = n if meta.get("geom_n") else None
     if f == "Cauchy":
         return Cauchy(a, b, geometry=geom)
@@ -844,6 +935,8 @@ def build_sep(meta):
     if f == "InvGamma":
         return InverseGamma(a, b, c, geometry=geom)
     if f == "SmoothedLaplace":
+        if meta.get("default_beta"):
+            return SmoothedLaplace(a, b, geometry=geom)          # the shipped default beta
         return SmoothedLaplace(a, b, c, geometry=geom)
     if f == "MHN":
         return ModifiedHalfNormal(a, b, c, geometry=geom)
@@ -915,6 +1008,20 @@ def input_style_failure(meta, obj, dim, kw=None):
             return "gradient at %s handed in as %s is %r but %r for a float64 array" % (xi.tolist(), name, o[1] if len(o) > 1 else o[0], ref[1])
         if not np.array_equal(np.asarray(arg, dtype=float), before):
             return "gradient() wrote into the caller's array (%s)" % name
+    # aliasing over time: the SAME array object, overwritten in place by the caller between two calls (a gradient step), must be
+    # read afresh -- the second result is compared with a call on a fresh copy of the new values
+    xw = xi.astype(float)
+    g1 = observe(lambda: obj.gradient(xw))
+    if g1[0] == "vec":
+        xw -= 0.25 * np.clip(np.asarray(g1[1]), -2, 2)
+        xw[:] = np.abs(xw) + 0.25                     # stay inside every support used with this helper
+        g2 = observe(lambda: obj.gradient(xw))
+        g2f = observe(lambda: obj.gradient(xw.copy()))
+        g1b = observe(lambda: obj.gradient(xi.astype(float)))
+        if g2 != g2f and not (g2[0] == "vec" and g2f[0] == "vec" and vclose(g2[1], g2f[1], 1e-12)):
+            return "after the caller overwrote its array in place, gradient(x) = %r but %r for a fresh copy of the same values" % (g2[1:], g2f[1:])
+        if not (g1b[0] == "vec" and vclose(g1b[1], ref[1], 1e-12)):
+            return "gradient at the first point changed after a call at another point: %r, first %r" % (g1b[1:], ref[1])
     if kw:
         o = observe(lambda: obj.gradient(**{kw: xi.astype(float)}))
         if o[0] != "raised" and (o[0] != "vec" or not vclose(o[1], ref[1], 1e-12)):
@@ -959,6 +1066,13 @@ def run(ctx):
     cases += gen_large(ctx, st)
     cases += gen_history(ctx, st)
     cases += gen_falsy(ctx, st)
+    cases += gen_lifecycle(ctx, st)
+    cases += gen_degenerate(ctx, st)
+    cases += gen_defaults(ctx, st)
+    cases += gen_subclass_geometry(ctx, st)
+    cases += gen_shallow(ctx, st)
+    cases += gen_intparams(ctx, st)
+    cases += gen_zeros(ctx, st)
     return Result(cases=cases, rule=RULE,
                   extra={"repair_state": {s: ("repaired" if v else "defect present") for s, v in st.items()}},
                   assumptions=[
@@ -1217,7 +1331,10 @@ def gen_lik(ctx, st):
                 d = rand_mapped(rng) if dom == "mapped+grad" else (rand_mapped_imap(rng) if dom == "mapped+grad+imap" else dom)
                 ms = rand_model(rng, kind, d)
                 lm = lik_meta(rng, ms, form, ptype)
-                lm["lstyle"] = ["to_likelihood", "call-name", "cond-param"][k % 3 if not ctx.thorough else (k // 3) % 3]
+                lm["lstyle"] = ["to_likelihood", "call-name", "cond-param", "cond-param-samename"][(k // 3) % 4]
+                lm["model"]["ret"] = ["fresh", "buffer", "fortran"][(k // 3 + MODEL_KINDS.index(kind)) % 3]
+                if kind == "matrix" and (k // 3) % 2:
+                    lm["model"]["intmatrix"] = True
                 out.append(case_lik(lm, st))
     # Lognormal data distribution (always a covariance)
     for kind in MODEL_KINDS:
@@ -1350,6 +1467,15 @@ SUM_LATTICE = [
     # a factor with its own FD switch on (prior without analytic gradient / a likelihood), inside the posterior
     ("post", "R", "n", "direct", None, "fd-prior"), ("mlp", "RR", "n", "direct", None, "fd-prior"),
     ("post", "R", "g", "direct", None, "fd-lik"), ("mlp", "RU", "g", "direct", "none", "fd-lik"),
+    # L24: every remaining prior CLASS inside the composites (a composite may special-case one class)
+    ("post", "R", "S", "direct", None), ("mlp", "RU", "S", "direct", "none"), ("post", "R", "K", "direct", None), ("mlp", "RR", "K", "joint", None),
+    ("post", "U", "c", "direct", "cont1d"), ("post", "R", "m", "direct", None), ("post", "R", "F", "direct", None), ("mlp", "RU", "F", "direct", "none"),
+    # L26: large additive constants of the log-density (user factors offset by 10^6, an observed independent variable far out):
+    # the gradient does not see them, logd differences still do not
+    ("post", "U", "g", "direct", "cont1d", "offset"), ("mlp", "RU", "g", "direct", "none", "offset"), ("post", "R", "g", "joint+const", None, "offset"),
+    ("mlp", "UU R".replace(" ", ""), "u", "direct", "none", "offset"),
+    # L19: user factors that refill and hand out one work buffer on every call
+    ("post", "U", "g", "direct", "cont1d", "buffer"), ("mlp", "RUU", "g", "direct", "none", "buffer"), ("mlp", "UR", "u", "direct", "cont1d", "buffer"),
 ]
 
 
@@ -1370,6 +1496,13 @@ def rand_prior(rng, kind, n):
                 "mean": rand_mean(rng, n), "prec": P_(rpos(rng))}
     if kind == "c":
         return {"fam": "sep", "sfam": "Cauchy", "n": n, "pars": [["v", pv(rvec(rng, n, nonzero=True))], ["s", P_(rpos(rng))], ["s", P_(0)]], "geom_n": True}
+    if kind == "S":
+        return sep_meta(rng, "SmoothedLaplace", n, vec=(rng.random() < 0.5))
+    if kind == "K":
+        return {"fam": "cmrf", "bc": rng.choice(["zero", "neumann", "periodic"]), "pd": 1, "n": n, "N": n, "geo2": None, "loc": rand_mean(rng, n), "scale": P_(rpos(rng))}
+    if kind == "F":
+        # Lognormal prior with a full covariance (support x > 0: the evaluation points are moved inside by the caller)
+        return {"fam": "lognormal-full", "n": n, "mean": pv(rvec(rng, n, -1, 1, nonzero=True)), "cov": pm(rand_spd(rng, n))}
     if kind in BOUNDED_PRIORS:
         return sep_meta(rng, BOUNDED_PRIORS[kind], n, vec=(rng.random() < 0.5))
     return rand_user_factor(rng, "udist", n, grad=(kind == "u"))
@@ -1459,9 +1592,24 @@ def gen_sum_factors(ctx, st):
                     "style": style.split("+")[0], "cellname": "%s/factors:%s/prior:%s/%s%s" % (fam, liks, pk, style, "/ugeom:" + ugeom if ugeom else "")}
             if style.endswith("+const"):
                 meta["const"] = pv(rvec(rng, 2, -1, 1))
-            if fdwhich:
+            if pk == "F":
+                meta["x"], meta["x1"] = pv([Fraction(rng.randint(2, 16), 8) for _ in range(n)]), pv([Fraction(rng.randint(2, 16), 8) for _ in range(n)])
+            if fdwhich in ("fd-prior", "fd-lik"):
                 meta["fd_parts"] = [len(parts) - 1] if fdwhich == "fd-prior" else [0]
                 meta["cellname"] += "/" + fdwhich
+            elif fdwhich == "offset":
+                for q in parts:
+                    if q["fam"] in ("ulik", "udist") and q["deg"] != 1:
+                        q["offset"] = P_(10 ** 6 * rng.choice([1, -1]))
+                if meta.get("const"):
+                    meta["const"] = pv([Fraction(1000), Fraction(-1000)])
+                meta["cellname"] += "/large-offset"
+            elif fdwhich == "buffer":
+                for q in parts:
+                    if q["fam"] in ("ulik", "udist"):
+                        q["deg"] = rng.choice([2, 4])
+                        q["ret"] = "buffer"
+                meta["cellname"] += "/user-work-buffer"
             if meta["style"] == "direct" and fam == "mlp" and r % 2 == 1:
                 order = list(range(len(parts)))
                 rng.shuffle(order)               # the prior need not come last among the constructor's arguments
@@ -2055,6 +2203,303 @@ def case_dispatch(meta, fx):
     meta = dict(meta)
     meta["observed"] = oc
     return Case(expr=expr, meta=meta, cell="dispatch/%s" % fam[1:], kind="DECISION", trivial=True, impl_fail=d, signature=sig)
+
+
+# ---- round-4 lessons -----------------------------------------------------------------------------------------------------
+def outcome_of(o, spy_calls):
+    if o[0] in ("vec", "matrix", "scalar"):
+        return "OFD" if spy_calls else "OGrad"
+    return {"raised": "ORefused", "none": "ONone", "nan": "ONaN"}[o[0]]
+
+
+def gen_lifecycle(ctx, st):
+    """L14: the refusal / FD clauses in every life-cycle state of ONE object: fresh -> after a (refused) call -> FD switched on ->
+    FD switched off again -> after another call; the dispatch model is evaluated with the fd flag of each state, and an object
+    that answered analytically must answer with the very same numbers after the switch was on and off again"""
+    fx = coq_fixes(st)
+    out = []
+    configs = [("DNoAnalytic", "GeoIdentity", "MeanConst", False, "RDirect"), ("DUserNoGrad", "GeoIdentity", "MeanConst", False, "RDirect"),
+               ("DUserWithGrad", "GeoIdentity", "MeanConst", False, "RDirect"), ("DGaussian", "GeoIdentity", "MeanConst", True, "RDirect"),
+               ("DGaussian", "GeoOther", "MeanConst", False, "RDirect"), ("DGaussian", "GeoIdentity", "MeanConst", False, "RDirect"),
+               ("DGaussian", "GeoIdentity", "MeanModel", False, "RLik"), ("DGaussian", "GeoIdentity", "MeanCallable", False, "RLik"),
+               ("DGMRF", "GeoIdentity", "MeanConst", False, "RDirect"), ("DCMRF", "GeoWithGradient", "MeanConst", False, "RDirect"),
+               ("DCauchy", "GeoIdentity", "MeanConst", False, "RDirect"), ("DCauchy", "GeoOther", "MeanConst", False, "RDirect"),
+               ("DBeta", "GeoIdentity", "MeanConst", True, "RDirect"), ("DInvGamma", "GeoIdentity", "MeanConst", False, "RDirect"),
+               ("DLognormal", "GeoIdentity", "MeanConst", False, "RDirect"), ("DLognormal", "GeoIdentity", "MeanModel", False, "RLik"),
+               ("DSmoothedLaplace", "GeoIdentity", "MeanConst", False, "RDirect"), ("DMHN", "GeoIdentity", "MeanConst", False, "RDirect"),
+               ("DUniform", "GeoIdentity", "MeanConst", False, "RDirect")]
+    for (fam, geo, mk, cond, route) in configs:
+        import io, contextlib
+        try:
+            with warnings.catch_warnings():
+                warnings.simplefilter("ignore")
+                with contextlib.redirect_stdout(io.StringIO()):
+                    b = build_dispatch(fam, geo, mk, cond, True, route)
+        except Exception:
+            b = None
+        if b is None:
+            continue
+        call, obj = b
+        states = [("fresh", False), ("again", False), ("fd-on", True), ("fd-off", False), ("fd-on-eps", True), ("fd-off-again", False)]
+        obs, exprs = [], []
+        for name, fd in states:
+            if name == "fd-on":
+                obj.enable_FD()
+            elif name == "fd-on-eps":
+                obj.enable_FD(2.0 ** -20)
+            elif name.startswith("fd-off"):
+                obj.disable_FD()
+            with FDSpy() as spy:
+                o = observe(call)
+            obs.append(o)
+            exprs.append("check_dispatch %s %s %s %s %s %s %s true %s" % (fx, fam, geo, mk, route, cbool(cond), cbool(fd), outcome_of(o, spy.calls)))
+        d, sig = None, ""
+        same = lambda a, b: a == b or (a[0] == b[0] == "raised")
+        if not (same(obs[0], obs[1]) and same(obs[0], obs[3]) and same(obs[0], obs[5])):
+            d = ("%s: the answer of gradient() depends on the object's history (fresh %r, second call %r, after FD on/off %r, after FD(eps) on/off %r)"
+                 % (fam[1:], obs[0][:2], obs[1][:2], obs[3][:2], obs[5][:2]))
+            sig = "C03|lifecycle|%s" % fam
+        meta = {"fam": "lifecycle", "dfam": fam, "geo": geo, "mean": mk, "cond": cond, "route": route, "cellname": "lifecycle/%s/%s/%s%s" % (fam[1:], geo, mk, "/cond" if cond else "")}
+        out.append(Case(expr=" && ".join(exprs), meta=meta, cell=meta["cellname"], kind="DECISION", impl_fail=d, signature=sig))
+    return out
+
+
+def gen_degenerate(ctx, st):
+    """L21: counts of one -- a single datum (the scalar-residual branch of Gaussian._gradient), a single parameter, and a
+    one-dimensional object evaluated at a plain Python float / numpy scalar instead of an array of length 1"""
+    rng = ctx.rng
+    out = []
+    for kind in MODEL_KINDS:
+        for (m, n) in ((1, 2), (2, 1), (1, 1)):
+            for form, ptype in (("cov", "scalar"), ("prec", "vector"), ("sqrtprec", "matrix")):
+                if (MODEL_KINDS.index(kind) + m + 2 * n + len(form)) % 3 and not ctx.thorough:
+                    continue
+                ms = rand_model(rng, kind, ("default",), m=m, n=n)
+                lm = lik_meta(rng, ms, form, ptype)
+                lm["cellname"] = "degenerate/lik/%s/m=%d,n=%d/%s-%s" % (kind, m, n, form, ptype)
+                out.append(case_lik(lm, st))
+    # scalar evaluation points for one-dimensional objects
+    from cuqi.distribution import Gaussian, Cauchy, InverseGamma, Beta, Uniform, SmoothedLaplace
+    specs = [("Gaussian", lambda: Gaussian(0.5, 2.0)), ("Gaussian-sqrtprec", lambda: Gaussian(-1.0, sqrtprec=0.5)), ("Cauchy", lambda: Cauchy(0.25, 2.0)),
+             ("InverseGamma", lambda: InverseGamma(2.0, -1.0, 0.5)), ("Beta", lambda: Beta(2.0, 3.0)), ("Uniform", lambda: Uniform(0.0, 2.0)),
+             ("SmoothedLaplace", lambda: SmoothedLaplace(0.5, 2.0, 0.25))]
+    for name, mk in specs:
+        for fd in (False, True):
+            obj = mk()
+            xs = 0.625
+            if fd:
+                obj.enable_FD(2.0 ** -20)
+            ref = observe(lambda: mk().gradient(np.array([xs])))                 # analytic reference on a fresh object, array input
+            res = {}
+            for style, arg in (("python-float", xs), ("numpy-scalar", np.float64(xs)), ("0-d array", np.array(xs))):
+                o = observe(lambda: obj.gradient(arg))
+                res[style] = o
+            d, sig = None, ""
+            ng = num_grad(logd_of(mk()), np.array([xs]), hs=[0.25])
+            for style, o in res.items():
+                if o[0] == "raised":
+                    continue
+                val = o[1] if o[0] == "scalar" else (o[1][0] if o[0] == "vec" and len(o[1]) == 1 else None)
+                if val is None or abs(val - ng[0]) > (2e-3 if fd else 1e-6) * (1 + abs(ng[0])):
+                    d = "%s (dim 1)%s.gradient(%s %r) = %r but d logd/dx = %r" % (name, " with FD on" if fd else "", style, xs, o[1:], ng[0])
+                    sig = "C03|degenerate/scalar-point/%s|%s" % (name, style)
+                    break
+            meta = {"fam": "scalar-point", "name": name, "fd": fd, "cellname": "degenerate/scalar-point/%s%s" % (name, "/fd" if fd else "")}
+            out.append(Case(expr="true", meta=meta, cell=meta["cellname"], kind="DECISION", impl_fail=d, signature=sig))
+    return out
+
+
+def gen_defaults(ctx, st):
+    """L22: the shipped defaults -- SmoothedLaplace's default beta, GMRF / CMRF default boundary condition and order,
+    enable_FD()'s default epsilon (FD cells) and utilities.approx_gradient's own default step"""
+    import cuqi
+    rng = ctx.rng
+    out = []
+    for r in range(ctx.n(2, 6)):
+        n = rng.randint(2, 4)
+        sm = sep_meta(rng, "SmoothedLaplace", n, vec=bool(r % 2))
+        sm["pars"][2] = ["s", P_(Fraction(1e-3))]
+        sm["default_beta"] = True
+        sm["cellname"] = "defaults/SmoothedLaplace-beta"
+        out += case_sep(sm, st)
+        m = rng.randint(3, 6)
+        out.append(case_gmrf({"fam": "gmrf", "bc": "zero", "order": 1, "pd": 1, "n": m, "N": m, "geo2": None, "defaults": True, "mean": rand_mean(rng, m),
+                              "prec": P_(rpos(rng)), "x": pv(rvec(rng, m, -2, 2)), "x1": pv(rvec(rng, m, -2, 2)), "cellname": "defaults/GMRF"}, st))
+        out += case_cmrf({"fam": "cmrf", "bc": "zero", "pd": 1, "n": m, "N": m, "geo2": None, "defaults": True, "loc": rand_mean(rng, m), "scale": P_(rpos(rng)),
+                          "x": pv(rvec(rng, m, -2, 2)), "x1": pv(rvec(rng, m, -2, 2)), "cellname": "defaults/CMRF"}, st)
+        # approx_gradient(func, x) with its own default epsilon on a quartic: entry i is the difference quotient of the same func
+        c = fa(pv(rvec(rng, n)))
+        func = lambda z: -0.25 * float(np.sum((np.asarray(z, dtype=float) - c) ** 4))
+        x = fa(pv(rvec(rng, n, -2, 2)))
+        import inspect
+        eps = inspect.signature(cuqi.utilities.approx_gradient).parameters["epsilon"].default
+        o = observe(lambda: cuqi.utilities.approx_gradient(func, x.copy()))
+        fis = []
+        for i in range(n):
+            ev = x * 0.0
+            ev[i] = eps
+            fis.append(func(x + ev))
+        d, sig = None, ""
+        exact = -(x - c) ** 3
+        if o[0] != "vec" or not vclose(o[1], exact, 1e-3):
+            d, sig = "approx_gradient(f, x) with the default step = %r but f'(x) = %s" % (o[1:], exact.tolist()), "C03|defaults/approx_gradient"
+        expr = ("check_fd %s %s %s %s" % (cq(eps), cq(func(x)), cqvec(fis), cqvec(o[1]))) if o[0] == "vec" else "false"
+        out.append(Case(expr=expr, meta={"fam": "approx-default", "cellname": "defaults/approx_gradient"}, cell="defaults/approx_gradient", kind="EXACT",
+                        impl_fail=d, signature=sig))
+    return out
+
+
+def gen_subclass_geometry(ctx, st):
+    """L23: the geometry guards test the EXACT type (`type(g) in identity_geometries`): geometries that subclass an identity
+    geometry but change par2fun (KLExpansion, StepExpansion subclass Continuous1D) -- and a user subclass that changes nothing --
+    are refused by every guarded family; as a model's domain geometry they are refused too (lik cells 'kl' / 'step')"""
+    from cuqi.distribution import Gaussian, GMRF, CMRF, Cauchy, Beta, InverseGamma, Lognormal, Posterior
+    from cuqi.geometry import KLExpansion, StepExpansion, Continuous1D, Discrete
+    import io, contextlib
+    n = 4
+
+    class MyC1D(Continuous1D):
+        pass
+
+    class MyDiscrete(Discrete):
+        pass
+    geoms = {"KLExpansion": lambda: KLExpansion(np.linspace(0, 1, n), num_modes=n), "StepExpansion": lambda: StepExpansion(np.linspace(0, 1, 2 * n), n_steps=n),
+             "subclass-of-Continuous1D": lambda: MyC1D(n), "subclass-of-Discrete": lambda: MyDiscrete(n)}
+    fams = {"Gaussian": lambda g: Gaussian(np.ones(n), 2.0, geometry=g), "GMRF": lambda g: GMRF(np.ones(n), 2.0, geometry=g),
+            "CMRF": lambda g: CMRF(np.ones(n), 0.5, geometry=g), "Cauchy": lambda g: Cauchy(np.ones(n), 2.0, geometry=g),
+            "Beta": lambda g: Beta(2 * np.ones(n), 3.0, geometry=g), "InverseGamma": lambda g: InverseGamma(2.0, -np.ones(n), 1.0, geometry=g),
+            "Lognormal": lambda g: Lognormal(np.ones(n), np.eye(n), geometry=g)}
+    out = []
+    x = np.array([0.5, 0.25, 0.75, 0.125])
+    for gname, mkg in geoms.items():
+        for fname, mkf in fams.items():
+            try:
+                with warnings.catch_warnings():
+                    warnings.simplefilter("ignore")
+                    with contextlib.redirect_stdout(io.StringIO()):
+                        obj = mkf(mkg())
+            except Exception:
+                continue                                     # refused at construction
+            o = observe(lambda: obj.gradient(x))
+            meta = {"fam": "subclass-geometry", "geometry": gname, "family": fname, "cellname": "subclass-geometry/%s/%s" % (gname, fname)}
+            out.append(Case(expr="match %s with ObsRaised => true | _ => false end" % cobs(o), meta=meta, cell=meta["cellname"], kind="DECISION", trivial=True))
+    return out
+
+
+def gen_shallow(ctx, st):
+    """L25: two conditioned copies of ONE parent distribution alive at once (they share whatever the shallow copy shares, e.g.
+    Lognormal's inner Gaussian); the copy under test is evaluated only after its sibling was created AND evaluated"""
+    rng = ctx.rng
+    out = []
+    for r in range(ctx.n(2, 6)):
+        n = rng.randint(2, 3)
+        for form, ptype in (("cov", "matrix"), ("sqrtprec", "vector")):
+            val, _, _ = gauss_param(rng, form, ptype, n)
+            meta = {"fam": "gauss", "form": form, "ptype": ptype, "param": raw_param(val, ptype), "n": n, "mean": ["v", pv(rvec(rng, n, nonzero=True))],
+                    "x": pv(rvec(rng, n)), "x1": pv(rvec(rng, n)), "shallow": {"sibling_mean": pv(rvec(rng, n, nonzero=True)), "x0": pv(rvec(rng, n))},
+                    "cellname": "shallow/gauss/%s-%s" % (form, ptype)}
+            out.append(case_gauss_prior(meta, st))
+        meta = {"fam": "lognormal-full", "n": n, "mean": pv(rvec(rng, n, -1, 1, nonzero=True)), "cov": pm(rand_spd(rng, n)),
+                "x": pv([Fraction(rng.randint(2, 24), 8) for _ in range(n)]), "x1": pv([Fraction(rng.randint(2, 24), 8) for _ in range(n)]),
+                "shallow": {"sibling_mean": pv(rvec(rng, n, -1, 1, nonzero=True)), "x0": pv([Fraction(rng.randint(2, 24), 8) for _ in range(n)])},
+                "cellname": "shallow/lognormal-full"}
+        out.append(case_lognormal_full(meta, st))
+        ms = rand_model(rng, rng.choice(MODEL_KINDS), ("default",), n=n)
+        lm = lik_meta(rng, ms, "cov", "vector")
+        lm["shallow"] = {"sibling_data": pv(rvec(rng, ms["m"])), "x0": pv(rvec(rng, n))}
+        lm["cellname"] = "shallow/lik/two-likelihoods-of-one-distribution"
+        out.append(case_lik(lm, st))
+    return out
+
+
+def gen_intparams(ctx, st):
+    """L20: integer-dtype stored parameters / data (int64 arrays and Python lists of ints) through reciprocals and square roots"""
+    rng = ctx.rng
+    out = []
+    ri = lambda n, lo, hi: [Fraction(rng.randint(lo, hi)) for _ in range(n)]
+    for r in range(ctx.n(1, 4)):
+        n = rng.randint(2, 3)
+        for form in ("cov", "prec", "sqrtcov", "sqrtprec"):
+            for ptype, raw in (("scalar", P_(rng.randint(2, 5))), ("vector", pv(ri(n, 2, 10))), ("matrix", pm(rand_spd(rng, n) if form in ("cov", "prec") else rand_tri(rng, n)))):
+                meta = {"fam": "gauss", "form": form, "ptype": ptype, "param": raw, "n": n, "mean": ["v", pv(ri(n, -3, 3))], "x": pv(rvec(rng, n)), "x1": pv(rvec(rng, n)),
+                        "intdecl": ["int64", "list"][r % 2], "cellname": "intparams/gauss/%s-%s" % (form, ptype)}
+                out.append(case_gauss_prior(meta, st))
+        for sf in ("Cauchy", "Beta", "InvGamma", "SmoothedLaplace", "Uniform"):
+            sm = sep_meta(rng, sf, n, True)
+            if sf == "Cauchy":
+                sm["pars"] = [["v", pv(ri(n, -3, 3))], ["v", pv(ri(n, 1, 5))], ["s", P_(0)]]
+            elif sf == "Beta":
+                sm["pars"] = [["v", pv(ri(n, 1, 4))], ["v", pv(ri(n, 1, 4))], ["s", P_(0)]]
+            elif sf == "InvGamma":
+                sm["pars"] = [["v", pv(ri(n, 1, 4))], ["v", pv(ri(n, -3, 0))], ["v", pv(ri(n, 1, 4))]]
+            elif sf == "SmoothedLaplace":
+                sm["pars"] = [["v", pv(ri(n, -3, 3))], ["v", pv(ri(n, 1, 5))], ["s", P_(1)]]
+            else:
+                lo = ri(n, -3, 0)
+                sm["pars"] = [["v", pv(lo)], ["v", pv([l + rng.randint(1, 4) for l in lo])], ["s", P_(0)]]
+            sm["x"], sm["x1"] = pv(sep_point(rng, sm)), pv(sep_point(rng, sm))
+            sm["intdecl"] = ["int64", "list"][r % 2]
+            sm["cellname"] = "intparams/sep/%s" % sf
+            out += case_sep(sm, st)
+        m = rng.randint(3, 4)
+        out.append(case_gmrf({"fam": "gmrf", "bc": rng.choice(["zero", "periodic", "neumann"]), "order": rng.choice([0, 1, 2]), "pd": 1, "n": m, "N": m, "geo2": None,
+                              "mean": ["v", pv(ri(m, -3, 3))], "prec": P_(rng.randint(1, 4)), "intdecl": "int64", "x": pv(rvec(rng, m, -2, 2)), "x1": pv(rvec(rng, m, -2, 2)),
+                              "cellname": "intparams/gmrf"}, st))
+        out += case_cmrf({"fam": "cmrf", "bc": rng.choice(["zero", "periodic", "neumann"]), "pd": 1, "n": m, "N": m, "geo2": None, "loc": ["v", pv(ri(m, -3, 3))],
+                          "scale": P_(rng.randint(1, 3)), "intdecl": "int64", "x": pv(rvec(rng, m, -2, 2)), "x1": pv(rvec(rng, m, -2, 2)), "cellname": "intparams/cmrf"}, st)
+        ms = rand_model(rng, rng.choice(MODEL_KINDS), ("default",), n=n)
+        lm = lik_meta(rng, ms, "cov", "vector")
+        lm["param"], lm["data"], lm["intdecl"] = pv(ri(ms["m"], 1, 5)), pv(ri(ms["m"], -3, 3)), "int64"
+        lm["cellname"] = "intparams/lik/int-data-int-cov"
+        out.append(case_lik(lm, st))
+    return out
+
+
+def gen_zeros(ctx, st):
+    """L18: EXACT zeros inside otherwise generic data: means like [0, 2], block-decoupled matrices, a forward-model matrix with a
+    zero column, a start point at which a Jacobian column vanishes (u_i = 0 with B column zero), points with some zero entries"""
+    rng = ctx.rng
+    out = []
+    for r in range(ctx.n(1, 4)):
+        n = 3
+        mz = rvec(rng, n, nonzero=True)
+        mz[rng.randrange(n)] = Fraction(0)
+        if all(a == 0 for a in mz):
+            mz[0] = Fraction(2)
+        xz = rvec(rng, n, nonzero=True)
+        xz[rng.randrange(n)] = Fraction(0)
+        blk = [[2, 1, 0], [1, 3, 0], [0, 0, 4]]                       # block-decoupled SPD matrix, structural zeros
+        tri = [[1, 0, 0], [-1, 2, 0], [0, 0, 1]]                      # triangular factor with a zero inside its triangle
+        for form, M in (("cov", blk), ("prec", blk), ("sqrtcov", tri), ("sqrtprec", tri)):
+            meta = {"fam": "gauss", "form": form, "ptype": "matrix", "param": pm(M), "n": n, "mean": ["v", pv(mz)], "x": pv(xz), "x1": pv(rvec(rng, n)),
+                    "cellname": "zeros/gauss/%s-block-matrix" % form}
+            out.append(case_gauss_prior(meta, st))
+        for kind in MODEL_KINDS:
+            ms = rand_model(rng, kind, ("default",), m=2, n=3)
+            j = rng.randrange(3)
+            B = [[F(a) for a in row] for row in ms["B"]]
+            A = [[F(a) for a in row] for row in ms["A"]]
+            for row in B:
+                row[j] = Fraction(0)                                   # column j of B is exactly zero ...
+            ms["B"], ms["A"] = pm(B), pm(A)
+            lm = lik_meta(rng, ms, "cov", "vector")
+            th = uv(lm["x"])
+            th[j] = Fraction(0)                                         # ... and theta_j = 0: column j of the Jacobian 2 A diag(theta) + B vanishes
+            lm["x"] = pv(th)
+            lm["data"] = pv([Fraction(0)] + uv(lm["data"])[1:])
+            lm["cellname"] = "zeros/lik/%s/zero-jacobian-column" % kind
+            out.append(case_lik(lm, st))
+        sm = sep_meta(rng, "Cauchy", n, True)
+        loc = uv(sm["pars"][0][1]); loc[0] = Fraction(0); sm["pars"][0] = ["v", pv(loc)]
+        xs = uv(sm["x"]); xs[1] = Fraction(0); sm["x"] = pv(xs)
+        sm["cellname"] = "zeros/sep/Cauchy"
+        out += case_sep(sm, st)
+        m = 4
+        mm = rvec(rng, m, nonzero=True); mm[1] = Fraction(0)
+        out.append(case_gmrf({"fam": "gmrf", "bc": rng.choice(["zero", "periodic", "neumann"]), "order": rng.choice([0, 1, 2]), "pd": 1, "n": m, "N": m, "geo2": None,
+                              "mean": ["v", pv(mm)], "prec": P_(rpos(rng)), "x": pv([Fraction(0)] + rvec(rng, m - 1, -2, 2)), "x1": pv(rvec(rng, m, -2, 2)),
+                              "cellname": "zeros/gmrf"}, st))
+    return out
 
 
 # ---- shipped user-defined densities with hand-derived gradients (oracle only) ---------------------------------
